@@ -46,10 +46,13 @@ impl std::ops::DerefMut for Pt3s {
 impl std::fmt::Display for Pt3s {
     fn fmt(&self, f: &mut std::fmt::Formatter<'_>) -> std::fmt::Result {
         write!(f, "[")?;
-        for i in 0..self.len() - 1 {
-            write!(f, "{},", self[i])?
+        for i in 0..self.len() {
+            if i > 0 {
+                write!(f, ",")?;
+            }
+            write!(f, "{}", self[i])?
         }
-        write!(f, "{}]", self[self.len() - 1])
+        write!(f, "]")
     }
 }
 
